@@ -1,5 +1,6 @@
 #!/usr/bin/env python3
 import ast
+import io
 import os
 from collections import defaultdict
 from typing import Dict, Tuple, Union
@@ -136,7 +137,9 @@ MappingType = Dict[str, Dict[str, Tuple[str, str]]]
 
 
 def rewrite_imports(source_code: str, mapping: MappingType) -> Union[str, None]:
-    lines = source_code.splitlines(keepends=True)
+    # split on the line breaks the parser recognises (\n, \r\n, \r): str.splitlines() also
+    # breaks on \f, \v, \x1c-\x1e, \x85, \u2028 and \u2029, which shifts every line number
+    lines = io.StringIO(source_code, newline="").readlines()
     tree = ast.parse(source_code)
     replacements = []
 
